@@ -7,6 +7,7 @@ import (
 	"context"
 	"fmt"
 	"math/big"
+	"os"
 	"os/exec"
 	"strings"
 	"sync"
@@ -265,7 +266,18 @@ func cvc5ify(script string) string {
 	return "(set-logic ALL)\n" + script
 }
 
-var solverSem = make(chan struct{}, 16)
+var solverSem = make(chan struct{}, solverParallelism())
+
+func solverParallelism() int {
+	n := 6
+	if s := os.Getenv("GOVC_PAR"); s != "" {
+		fmt.Sscan(s, &n)
+	}
+	if n < 1 {
+		n = 1
+	}
+	return n
+}
 
 // Solve runs the portfolio: first z3-new with a short budget, then all three raced.
 func Solve(script string, timeout time.Duration, wantModel bool) SolverResult {
